@@ -94,6 +94,15 @@ func ScopeMiddleware(provider godi.Provider, opts ...Option) fiber.Handler {
 		opt(cfg)
 	}
 
+	// A handler that an option set to nil is the default one
+	defaults := defaultConfig()
+	if cfg.ErrorHandler == nil {
+		cfg.ErrorHandler = defaults.ErrorHandler
+	}
+	if cfg.CloseErrorHandler == nil {
+		cfg.CloseErrorHandler = defaults.CloseErrorHandler
+	}
+
 	return func(c *fiber.Ctx) error {
 		scope, err := provider.CreateScope(c.UserContext())
 		if err != nil {
@@ -210,6 +219,18 @@ func Handle[T any](method func(T, *fiber.Ctx) error, opts ...HandlerOption) fibe
 	cfg := defaultHandlerConfig()
 	for _, opt := range opts {
 		opt(cfg)
+	}
+
+	// A handler that an option set to nil is the default one
+	defaults := defaultHandlerConfig()
+	if cfg.PanicHandler == nil {
+		cfg.PanicHandler = defaults.PanicHandler
+	}
+	if cfg.ScopeErrorHandler == nil {
+		cfg.ScopeErrorHandler = defaults.ScopeErrorHandler
+	}
+	if cfg.ResolutionErrorHandler == nil {
+		cfg.ResolutionErrorHandler = defaults.ResolutionErrorHandler
 	}
 
 	return func(c *fiber.Ctx) (err error) {
